@@ -1116,7 +1116,8 @@ func runBatch(cfg *RunCfg, k int, record func(*caseCfg, observedSet, string)) {
 func runNoSpawn(cfg *RunCfg, record func(*caseCfg, observedSet, string)) {
 	erpc.SetGopool(3, time.Minute)
 	defer erpc.SetGopool(1<<20, time.Minute)
-	sess, rp := newSession(peerPlain)
+	t1 := randomCase(cfg)
+	sess, rp := newSession(t1.peer())
 	a, b := newCase(), newCase()
 	a.handler, b.handler = handlerSpec{kind: "park"}, handlerSpec{kind: "park"}
 	a.send(rp)
@@ -1128,7 +1129,6 @@ func runNoSpawn(cfg *RunCfg, record func(*caseCfg, observedSet, string)) {
 			Must(errors.New("nospawn: parked handler never entered"))
 		}
 	}
-	t1 := randomCase(cfg)
 	t1.env = "nospawn"
 	if t1.body == "codec0" {
 		t1.body = "valid"
